@@ -153,12 +153,13 @@ func (c06) Case(c *core.Ctx) {
 				}
 				api = "Json"
 			case 1:
+				pi := [][2]string{{"", " "}, {"", " "}, {"", ""}, {" ", ""}, {"", "\t"}, {"  ", " "}}[r.Intn(6)]
 				if safe {
-					out, err = mxj.Map(m).JsonIndent("", " ", true)
+					out, err = mxj.Map(m).JsonIndent(pi[0], pi[1], true)
 				} else {
-					out, err = mxj.Map(m).JsonIndent("", " ")
+					out, err = mxj.Map(m).JsonIndent(pi[0], pi[1])
 				}
-				api = "JsonIndent"
+				api = fmt.Sprintf("JsonIndent(%q,%q)", pi[0], pi[1])
 			default:
 				out, err = mxj.Map(m).JsonIndent("\t", "  ", safe)
 				api = "JsonIndent(prefix)"
